@@ -398,7 +398,10 @@ def _slice_1d(dim_shape, lengths, index):
 
         for i in range(istart, istop):
             length = lengths[i]
-            if start < length and stop > 0:
+            if start < length and start < stop:
+                # (``start < stop``: a stride that jumps past ``stop`` inside
+                # this block selects nothing here; blocks without elements
+                # are left out, as documented)
                 d[i] = slice(start, min(stop, length), step)
                 start = (start - length) % step
             else:
